@@ -90,7 +90,7 @@ class ValueGen:
     def ts_value(self, t):
         r = self.rnd
         fmt = t.args['format']
-        dt = datetime.datetime(r.choice([1000, 1970, 1999, 2015, 2038, 9999]), r.randint(1, 12),
+        dt = datetime.datetime(r.choice([1, 999, 1000, 1970, 1999, 2015, 2038, 9999]), r.randint(1, 12),
                                r.randint(1, 28), r.randint(0, 23), r.randint(0, 59), r.randint(0, 59))
         if '%H' not in fmt:
             dt = dt.replace(hour=0, minute=0, second=0)
